@@ -137,7 +137,8 @@ class LocoMemory2(MemoryElement):
         self._update_data_finished_cb = None
 
     def _handle_id_list_data(self, data):
-        self.nr_of_anchors = data[0]
+        # Never more ids than the list that was read can hold
+        self.nr_of_anchors = min(data[0], len(data) - 1)
         for i in range(self.nr_of_anchors):
             self.anchor_ids.append(data[1 + i])
         self.ids_valid = True
@@ -147,7 +148,7 @@ class LocoMemory2(MemoryElement):
             self._update_ids_finished_cb = None
 
     def _handle_active_id_list_data(self, data):
-        count = data[0]
+        count = min(data[0], len(data) - 1)
         for i in range(count):
             self.active_anchor_ids.append(data[1 + i])
         self.active_ids_valid = True
